@@ -60,13 +60,14 @@ func TestC03(t *testing.T) {
 				}
 				persisted := w.store.at(k, initial)
 				// second run: same (complete) server log, fresh trace
-				w2 := &world{logs: w.logs, head: map[string]int{}, base: w.base, byTag: w.byTag, date: w.date,
+				w2 := &world{logs: w.logs, head: map[string]int{}, pub: map[string]int{}, base: w.base, byTag: w.byTag, date: w.date,
 					sliceLimit: w.sliceLimit, tooLongGap: w.tooLongGap, chTooLong: w.chTooLong, complete: true, seq: w.seq}
 				for s, es := range w.logs {
 					w2.head[s] = w.base[s]
 					if len(es) > 0 {
 						w2.head[s] = es[len(es)-1].end
 					}
+					w2.pub[s] = len(es)
 				}
 				persisted.w = w2
 				persisted.snaps = nil
@@ -84,7 +85,11 @@ func TestC03(t *testing.T) {
 				for s, r := range tl2 {
 					tl1[s] = append(tl1[s], r...)
 				}
-				if miss := w.missingFrom(d1, tl1); len(miss) > 0 {
+				inDiff := w.inDiffAt(k)
+				for tag := range w2.inDiffAt(-1) {
+					inDiff[tag] = true
+				}
+				if miss := w.missingFrom(d1, tl1, inDiff); len(miss) > 0 {
 					t.Fatalf("C03 violated (crash+restart): crash at trace index %d (persisted pts=%d qts=%d channels=%v), after restart and recovery %v never reached the handler in either run\nsteps: %s\ntrace1: %s\ntrace2: %s",
 						k, persisted.state.Pts, persisted.state.Qts, persisted.channels, miss, sc.key(), w.traceString(0), w2.traceString(0))
 				}
